@@ -501,6 +501,13 @@ def valid_worker(case: Dict[str, Any]) -> CaseResult:
             cfg = {"schema_path": "schema.graphql", "target_file_path": "out.graphql"}
         if label == "unknown-keys":
             cfg.update({"totally_unknown": 1, "another": {"nested": True}, "client_nam": "typo"})
+        elif label == "unknown-keys-nested":
+            # unknown keys inside the known sub-tables
+            cfg["scalars"] = {"When": {"type": "datetime.datetime", "description": "ISO timestamp", "graphql_type": "When", "x-team": "core"}}
+            cfg["remote_schema_headers"] = {"X-Plain": "value"}
+        elif label == "headers-dollar-inside":
+            # `$` only means "environment variable" at the start of a value: these are literals
+            cfg["remote_schema_headers"] = {"X-Key": "ab$$cd-2024", "X-Org": "org$team", "X-Price": "5$"}
         elif label == "deprecated-section":
             section_style = "plain"
         elif label == "bool-comments":
@@ -591,7 +598,7 @@ def all_cases(tier: str) -> List[Dict[str, Any]]:
     return cases
 
 
-VALID = [("headers-env", "client"), ("headers-env", "graphqlschema"), ("unknown-keys", "client"), ("unknown-keys", "graphqlschema"), ("deprecated-section", "client"), ("bool-comments", "client"), ("headers-literal", "client"),
+VALID = [("unknown-keys-nested", "client"), ("headers-dollar-inside", "client"), ("headers-dollar-inside", "graphqlschema"), ("headers-env", "client"), ("headers-env", "graphqlschema"), ("unknown-keys", "client"), ("unknown-keys", "graphqlschema"), ("deprecated-section", "client"), ("bool-comments", "client"), ("headers-literal", "client"),
          ("custom-base-client", "client"), ("all-names-custom", "client"), ("unused-fragment", "client"), ("scalar-full", "client"), ("target-upper-ext", "graphqlschema"),
          ("plain", "client"), ("plain", "graphqlschema")]
 
